@@ -58,7 +58,7 @@ DRIVER = None
 DRIVERS = sorted({p.C18_DRIVER for p in PARTS.values()})
 LEAN_MODULES = sorted({m for p in PARTS.values() for m in p.C18_LEAN_MODULES})
 THEOREMS = [t for p in PARTS.values() for t in p.C18_THEOREMS]
-COUNTS = {"quick": 120 * len(PARTS), "thorough": 4000 * len(PARTS)}
+COUNTS = {"quick": 120 * len(PARTS), "thorough": 12000 * len(PARTS)}
 TRUSTED = ["the rejecting branches are those of the part models (see the TRUSTED lists of C06, C08, C10, C11, C12, C14, C16)",
            "observations are the canonical per-op observations of each part; state not covered by them is not compared"]
 ASSUMPTIONS = ["the program catches the exception and continues (the harness does exactly that)"]
